@@ -73,6 +73,66 @@ def odometry_obligation(cfg):
     return lambda pkg: run_obligation(pkg, fn)
 
 
+def principal_angle_obligation():
+    """chi^2 squares the angular error, so the error angle has to be the *principal* value of theta_z - (theta_2 - theta_1): the last
+    thing that happens to that component must be the reduction to [-pi, pi) (a modulo-2*pi wrap or arctan2), whatever range the
+    operands' angles were given in.  Marker analysis: every wrap adds its own marker; the result must be `value + marker_k` for the
+    value that went into wrap k, i.e. the untouched output of a wrap."""
+    cfg = [c for c in CONFIGS if c[0] == "EdgeOdometry" and c[1] == "PoseSE2"][0]
+
+    def fn(it):
+        it.mark_wraps = "numbered"
+        p1, p2, z, _ = sym_config(cfg, unit=True)
+        e = make_edge(it, cfg, p1, p2, z, None)
+        got = it.call_method(e, "calc_error", [])
+        if not isinstance(got, Arr) or len(got.data) != 3:
+            raise ObFail("calc_error of an SE(2) odometry edge returns %r" % (got,))
+        ang = got.data[2]
+        if hasattr(ang, "modulus"):
+            return dict(form="wrapped value")           # still a wrapped value: nothing was done to it after the wrap
+        for name, before in it.wraps:
+            if isinstance(ang, Poly) and ang == before + Poly.var(name):
+                return dict(form="output of wrap %s" % name, wraps=len(it.wraps))
+        raise ObFail("the angular component of the SE(2) odometry error is not the output of an angle normalisation: it is congruent "
+                     "to theta_z - (theta_2 - theta_1) but not reduced to [-pi, pi) on every path (chi^2 squares it, so a multiple of "
+                     "2*pi matters)%s" % ((" on the path [%s]" % " and ".join(it.conds)[:300]) if it.conds else ""))
+    return lambda pkg: run_obligation(pkg, fn)
+
+
+def history_obligation(cfg):
+    """The error and chi^2 are functions of the edge's *current* measurement, offset and vertex poses: after the caller assigns
+    edge.estimate / edge.offset / vertex.pose (and after earlier evaluations), they answer for the new values."""
+    def fn(it):
+        p1, p2, z, off = sym_config(cfg, unit=True)
+        q1, q2, zz, off2 = sym_config(cfg, unit=True, names=("q1", "q2", "zz", "off2"))
+        from ..assembly import sym_symmetric
+        W = sym_symmetric("W", CDIM[cfg[3]])
+        e = make_edge(it, cfg, q1, q2, zz, off2, info=W)
+        it.call_method(e, "calc_error", [])
+        it.call_method(e, "calc_chi2", [])
+        sa(e, "estimate", z)
+        if off is not None:
+            sa(e, "offset", off)
+        for v, p in zip(ga(e, "vertices"), (p1, p2)):
+            sa(v, "pose", p)
+        got = it.call_method(e, "calc_error", [])
+        ref = make_edge(it, cfg, Pose(p1.cls, list(p1.data)), Pose(p2.cls, list(p2.data)), Pose(z.cls, list(z.data)),
+                        Pose(off.cls, list(off.data)) if off is not None else None, info=W)
+        exp = it.call_method(ref, "calc_error", [])
+        if cfg[3] == "PoseSE2" and isinstance(got, Arr) and isinstance(exp, Arr) and len(got.data) == 3 == len(exp.data):
+            if not angle_same(got.data[2], exp.data[2]):
+                raise ObFail("after re-assigning the measurement / vertex poses the angular error is that of the old values")
+            got, exp = Arr(got.data[:2], 1), Arr(exp.data[:2], 1)
+        require_same(got, exp, "%s: after the caller assigned a new measurement%s and new vertex poses, calc_error still answers for "
+                               "(some of) the old values" % (cfg_name(cfg), " / offset" if off is not None else ""))
+        c1, c2 = it.call_method(e, "calc_chi2", []), it.call_method(ref, "calc_chi2", [])
+        if cfg[3] != "PoseSE2":
+            require_same(c1, c2, "%s: after re-assignment calc_chi2 answers for the old values" % cfg_name(cfg))
+        no_bad_wrap(it)
+        return dict(terms=nterms(got))
+    return lambda pkg: run_obligation(pkg, fn)
+
+
 def landmark_obligation(cfg):
     def fn(it):
         p1, p2, z, off = sym_config(cfg, unit=True)
@@ -87,12 +147,29 @@ def landmark_obligation(cfg):
     return lambda pkg: run_obligation(pkg, fn)
 
 
+def generic_instance(it, cls, W):
+    """An instance of edge class `cls` whose error is supplied by the harness: built by the class's own constructor when that is
+    BaseEdge's (user-defined edge kinds), otherwise an object of the class with BaseEdge.__init__ applied (the chi^2 code is
+    inherited and only reads what that constructor stores)."""
+    from ..algebra import custom_edge
+    ids = [Poly.const(100), Poly.const(107)]
+    init = it.pkg.lookup(cls, "__init__")
+    if init is None or init == it.pkg.lookup("BaseEdge", "__init__"):
+        return custom_edge(it, ids, W, sym_vec("zc", 2), None, cls=cls)
+    fn = init[1][0]
+    known = dict(vertex_ids=ids, information=W)
+    n_def = len(fn.args.defaults)
+    params = [a.arg for a in fn.args.args[1:]]
+    required = params[:len(params) - n_def] if n_def else params
+    return it.construct(cls, [], {k: known.get(k) for k in required})
+
+
 def chi2_obligation(cls, n):
     def fn(it):
         e = it.pkg  # noqa
         err = sym_vec("e", n)
         W = sym_mat("W", n, n)   # generic full matrix: n*n independent atoms (cross terms, asymmetry all visible)
-        edge = Obj(cls, information=W, estimate=None, vertex_ids=[], vertices=[])
+        edge = generic_instance(it, cls, W)
         edge.stubs["calc_error"] = lambda: err
         got = it.call_method(edge, "calc_chi2", [])
         exp = Poly()
@@ -111,7 +188,7 @@ def scalar_chi2_obligation(cls):
     def fn(it):
         err = Poly.var("e")
         W = Poly.var("W")
-        edge = Obj(cls, information=W, estimate=None, vertex_ids=[], vertices=[])
+        edge = generic_instance(it, cls, W)
         edge.stubs["calc_error"] = lambda: err
         got = it.call_method(edge, "calc_chi2", [])
         require_same(got, err * W * err, "%s.calc_chi2 (scalar error) is not e * Omega * e" % cls)
@@ -124,7 +201,8 @@ def graph_sum_obligation(k, directed=False):
         from ..algebra import custom_edge
         from ..interp import sym_pose
         # a chain built by the real constructors: vertices 0..k, edge i joins i and i+1
-        verts = [it.construct("Vertex", [Poly.const(j), sym_pose("PoseR2", "x%d" % j)]) for j in range(k + 1)]
+        # the first two vertices are fixed: chi^2 is the sum over *all* edges, also those that join two fixed vertices
+        verts = [it.construct("Vertex", [Poly.const(j), sym_pose("PoseR2", "x%d" % j)], dict(fixed=(j < 2))) for j in range(k + 1)]
         edges = []
         for i in range(k):
             o = custom_edge(it, [Poly.const(i), Poly.const(i + 1)], None, None, None)
@@ -202,6 +280,15 @@ def run(run_, pkg, tier):
         ob = odometry_obligation(cfg) if cfg[0] == "EdgeOdometry" else landmark_obligation(cfg)
         if run_.wants(key):
             tasks.append((key, "C02-error-model", ob, "%s:%d" % (fn._gs_module, fn.lineno)))
+    key = "EdgeOdometry[PoseSE2]/error-angle-is-principal-value"
+    if run_.wants(key):
+        fn = pkg.method("EdgeOdometry", "calc_error")
+        tasks.append((key, "C02-error-model", principal_angle_obligation(), "%s:%d" % (fn._gs_module, fn.lineno)))
+    for cfg in CONFIGS:
+        key = "%s/calc_error/current-values" % cfg_name(cfg)
+        fn = pkg.method(cfg[0], "calc_error")
+        if run_.wants(key):
+            tasks.append((key, "C02-error-model-current-values", history_obligation(cfg), "%s:%d" % (fn._gs_module, fn.lineno)))
     edge_classes = ["BaseEdge"] + pkg.subclasses("BaseEdge")
     for cls in edge_classes:
         fn = pkg.method(cls, "calc_chi2")
